@@ -3,7 +3,11 @@
 Correspondence: (i) dense Semiring.solve, n <= 4, four semirings, vector and matrix b;
 (ii) multi_solve / multi_mv over block systems (all presence patterns of 2-block systems,
 sampled 3-/4-block systems, transpose on/off, recorded elimination order); (iii)
-PatternedTensor.solve on diagonal / block-sparse patterns; (iv) arguments unmodified
+PatternedTensor.solve on diagonal / block-sparse patterns, and (tier B, harness/props/_c09_psolve.py)
+on generated typed patterned systems at the level of its solution-axis loop: the computed axis, the
+number of passes, warnings and the dense operands handed to solve_thunks are observed and compared
+with the Gallina model of the loop (Model/PSolve.v) and judged by the verified oracles contains_b /
+closed_b / disjoint_b and the gather / scatter specification; (iv) arguments unmodified
 (byte snapshots).  Every implementation output is judged inside Coq (extracted) by
 is_solution_b + the N-step series lower bound + an upper-bound certificate + comparison
 with the model's least solution; see Model/Solve.v and Model/MultiSolve.v for the codes."""
@@ -11,6 +15,7 @@ import itertools, random, math, contextlib
 from fractions import Fraction
 from harness.core import *
 from harness.props import _c09_util as U
+from harness.props import _c09_psolve as PS
 from harness.props._c09_util import INF, NINF, F
 
 PID = "C09"
@@ -44,7 +49,7 @@ MMV = {
     "bool": CheckFn("c09-mmv-bool", "Model.MultiSolve", "multi_mv_check_bool", Tup(DIMS, DIMS, Bool, B2(Bool), B1(Bool), B1(Bool))),
 }
 ORDER = CheckFn("c09-order", "Model.MultiSolve", "order_check", Tup(List(Tup(Nat, Nat)), List(Nat), List(Nat)))
-CHECKFNS = list(DENSE.values()) + [LU] + list(MSOLVE.values()) + list(MMV.values()) + [ORDER]
+CHECKFNS = list(DENSE.values()) + [LU] + list(MSOLVE.values()) + list(MMV.values()) + [ORDER, PS.PS_AXIS, PS.PS_VALUE]
 
 CARRIER_OF = {"real": "ereal", "log": "ereal", "viterbi": "trop", "bool": "bool"}
 SEMIRINGS = ["real", "log", "viterbi", "bool"]
@@ -55,7 +60,8 @@ ASSUMPTIONS = [
     "torch.linalg.solve is an oracle argument of real_solve_model ('returns the unique solution of (I-A)x=b or fails'); its observed answer is recorded by wrapping it and fed to the model",
     "reshape/flatten of blocks is modelled as the identity on row-major data; the harness enumerates entries by explicit indexing",
     "_order_nonterminals iterates Python sets; the model iterates them in ascending key order, which is CPython's order for the small non-negative int keys used when the order model is compared (checked at run time on every set); multi_solve itself is run with the order the implementation chose",
-    "PatternedTensor.solve is compared with the dense model on the densified arguments (its axis computation is not modelled: tier-B item)",
+    "PatternedTensor.solve: the axis loop is modelled statement by statement (Model/PSolve.v: psolve_loop); the projection of a and b onto the computed axis (freshen / unify / project / clone / to_dense, lines 1430-1458) is modelled by its observable result, the gathers handed to semiring.solve_thunks, which the harness observes by wrapping solve_thunks and compares entry by entry (psolve_value_check); passes are counted by wrapping Axis.antiunify (top-level calls); physical axes are numbered by the harness, the solution axis is compared up to a bijective renaming (alpha_eqb)",
+    "C09_psolve_loop_closed / C09_psolve_denotes_least assume what the objects guarantee: the physical axes of a and of b's first dimension are disjoint (the code freshens b otherwise; the model does too), uids below the fresh-axis counter, one size per physical axis (szc), and that no warning was issued (observed and compared on every case); C09_psolve_loop_terminates additionally assumes the normal form of the three patterns (no size-1 factor inside a product: __post_init__ and productAxis guarantee it)",
     "C09_multi_solve_refines* assume what a Python dict guarantees: the keys of the shapes, of a and of b are duplicate-free (NoDup (map fst ...)), and the elimination order is a duplicate-free enumeration of the shape keys (proved for the model of _order_nonterminals: C09_order_nonterminals_enumerates / C09_multi_solve_code_order)",
 ]
 
@@ -721,7 +727,7 @@ def run_models_parallel(jobs, seed):
     return out
 
 def nontrivial(c):
-    if c["kind"] in ("dense", "patterned"):
+    if c["kind"] in ("dense", "patterned", "psolve"):
         n = c["n"]; z = U.zero_of(c["semiring"])
         return n >= 2 and any(c["A"][i][j] != z for i in range(n) for j in range(n) if i != j)
     return len(c["a"]) >= 2
@@ -774,6 +780,25 @@ def run(tier, seed):
             if r["lu"] and r["lu"][0][0] == "ok": lu = lu_wire(r["lu"][0][1])
             lus.append((c, (c["n"], U.wire_mat(name, c["A"]), [U.wire_val(name, row[0]) for row in c["B"]], lu, [row[0] for row in r["X"]]), r))
 
+    # ---- (iii') PatternedTensor.solve at the level of its axis loop (tier B): generated typed
+    # patterned systems, the loop's result / passes / warnings and the operands of solve_thunks
+    # observed; the dense result is judged by the same dense check functions as above
+    ps_items = []
+    for c in PS.psolve_cases(rng, tier, SEMIRINGS):
+        name = c["semiring"]; call = "PatternedTensor.solve"
+        try:
+            r = PS.run_case(c)
+        except Exception as e:
+            violations.append(Violation("%s raised %r" % (call, e), case={k: U.jsonable(v) for k, v in c.items()}, call=call, corr="corr:psolve"))
+            continue
+        count(c); evals += 1
+        if r["modified"]:
+            violations.append(Violation("%s modified its arguments (byte snapshot differs)" % call, case={k: U.jsonable(v) for k, v in c.items()}, call=call, corr="arguments unmodified"))
+        ps_items.append((c, r))
+        if c["n"] > 0 and c["m"] > 0:
+            mflag = 0 if c["vec"] else c["m"]
+            batches[CARRIER_OF[name]].append((c, dense_value(name, c["n"], mflag, c["A"], c["B"], r["X"]), r["X"], call))
+
     # ---- (ii) multi_solve
     mb = {"ereal": [], "trop": [], "bool": []}
     orders = []
@@ -818,10 +843,37 @@ def run(tier, seed):
     jobs += [(MSOLVE[k], [v for _, v, _ in mb[k]], 8, "c09-ms-" + k) for k in carriers]
     jobs.append((ORDER, [v for _, v in orders], 8, "c09-order"))
     jobs += [(MMV[k], [v for _, v, _ in vb[k]], 8, "c09-mv-" + k) for k in carriers]
+    ps_axis_vals = [PS.axis_value(c, r) for c, r in ps_items]
+    ps_val_items = [(c, r) for c, r in ps_items if r["tag"] == 0]
+    ps_value_vals = [PS.value_value(c, r) for c, r in ps_val_items]
+    jobs.append((PS.PS_AXIS, ps_axis_vals, 10, "c09-psolve-axis"))
+    jobs.append((PS.PS_VALUE, ps_value_vals, 8, "c09-psolve-value"))
     res = run_models_parallel(jobs, seed)
     kernel = sum(nk for _, nk in res)
     phase["model_and_kernel_s"] = round(_time.time() - t_model, 1)
-    rd = res[0:3]; rlu = res[3]; rms = res[4:7]; rord = res[7]; rmv = res[8:11]
+    rd = res[0:3]; rlu = res[3]; rms = res[4:7]; rord = res[7]; rmv = res[8:11]; rpa = res[11]; rpv = res[12]
+    ps_hist = {}
+    for (c, r), code in zip(ps_items, rpa[0]):
+        k = "%s/passes-%d/%s" % ("normal" if r["tag"] == 0 else "b.clone", r["passes"], "ok" if code == 0 else "code-%d" % code)
+        ps_hist[k] = ps_hist.get(k, 0) + 1
+        if code:
+            violations.append(Violation("PatternedTensor.solve [%s, %s]: %s" % (c["semiring"], c["cls"], PS.AXIS_CODE_TEXT.get(code, "code %d" % code)),
+                                        case={kk: U.jsonable(x) for kk, x in c.items()},
+                                        observed=U.jsonable(dict(exit="solve_thunks called" if r["tag"] == 0 else "b.clone()", solution_axis=r["e"], passes=r["passes"], warned=r["warned"])),
+                                        oracle={1: "contains_b", 2: "closed_b", 3: "disjoint_b"}.get(code),
+                                        corr="C09_psolve_loop_closed / C09_psolve_oracles_sound / corr:psolve-axis",
+                                        failing_input_found=code in (1, 2, 3), call="PatternedTensor.solve"))
+    for (c, r), code in zip(ps_val_items, rpv[0]):
+        if code:
+            violations.append(Violation("PatternedTensor.solve [%s, %s]: %s" % (c["semiring"], c["cls"], PS.VALUE_CODE_TEXT.get(code, "code %d" % code)),
+                                        case={kk: U.jsonable(x) for kk, x in c.items()},
+                                        observed=U.jsonable(dict(solution_axis=r["e"], operand_a=r["RA"], operand_b=r["RB"], solve_thunks_result=r["Xin"], result=r["Xd"])),
+                                        oracle="gather2 / scatter2 (C09_psolve_denotes_least)", corr="corr:psolve-value",
+                                        failing_input_found=code in (4, 5, 6), call="PatternedTensor.solve"))
+    evals += len(ps_value_vals)
+    if ps_items:
+        c, r = ps_items[0]
+        samples.append(dict(case={kk: U.jsonable(x) for kk, x in c.items()}, solution_axis=U.jsonable(r["e"]), passes=r["passes"]))
     for k, (codes, _) in zip(carriers, rd):
         items = batches[k]
         for (c, v, X, call), code in zip(items, codes):
@@ -858,13 +910,16 @@ def run(tier, seed):
     cov = dict(evaluations=evals, distinct_nontrivial=len(seen_nontrivial),
                rule="dense/patterned: n <= 4, entries from the exact grids (Real/Log: 0, 1/4, 1/2, 1, 2, inf; Viterbi: -inf, -3..2, +inf; Bool), classes forcing spectral radius < 1 (row sums < 1 / negative weights), = 1 (row-stochastic, zero-weight cycles), > 1, infinite entries, zero rows, triangular; vector and matrix right-hand sides. multi: all 16 x 4 presence patterns of a 2-block system x transpose, sampled 3- and 4-block systems, block shapes (), (2,), (2,2), (3,), three key types, order recorded from the implementation; product/sum-typed patterns over index types 2x2 and 2x2x2 (rows (c,A,B) against columns (A,B,C) and variants, single-cell / single-row right-hand sides) for PatternedTensor.solve and as diagonal blocks of multi_solve, closure depth of the solution support recorded in closure_depth_histogram. non-trivial = dense: n >= 2 with a non-zero off-diagonal entry; multi: >= 2 present blocks; distinct by full case content",
                samples=samples[:6], histogram=hist, closure_depth_histogram=depth_hist, kernel_reevaluated=kernel, lu_path_observed=lu_taken,
+               psolve_axis_loop_histogram=ps_hist,
                order_model_set_iteration_assumption_held=order_sets_ok, phase_seconds=phase, job_seconds=JOB_SECONDS,
                open_items=OPEN_ITEMS)
     return cov, violations
 
 OPEN_ITEMS = [
     "bool_series_exact_upto3 (bounded in-kernel check, n <= 3, in Proofs/SolveCarriers.v) is kept beside the unbounded C09_least_is_series_bool_exact",
-    "tier B: PatternedTensor.solve's solution-axis iteration (terminates, covers the support) is not modelled; its output is judged densely",
+    "tier B, termination: C09_psolve_loop_terminates bounds the passes of PatternedTensor.solve's axis loop by amsr(e0) * (amsr(e0) + 1) for all patterns in normal form (no size-1 factor inside a product) with one size per physical axis, UNLESS a warning (index type mismatch) is issued on the way; that typed patterns never warn in later passes is not proved (the typing judgement of C06 is not preserved by antiunify); failures of the fuel-bounded axis functions of the model (LErr) are a separate outcome",
+    "tier B, projection: lines 1430-1458 of PatternedTensor.solve (freshen / unify / project / clone / to_dense of a and b onto the computed axis) are modelled by their result (gather2) and compared with the observed operands of solve_thunks on every case; no statement-level Gallina model of that part (C07's project_view could be reused)",
+    "tier B: the link to PTensor.denote is proved for a matrix a and a VECTOR b whose defaults are the semiring zero (C09_psolve_tensor_least, C09_psolve_tensor_early_least); for a matrix right-hand side C09_psolve_denotes_least is stated for dense A, B that vanish outside the patterns; the default_to / freshen prologue (densified tensors, renamed axes denote the same tensor: C06) is exercised by the correspondence only",
 ]
 
 def replay(path):
@@ -875,6 +930,18 @@ def replay(path):
         print("nothing to replay in", path); return 1
     name = c["semiring"]
     def un(v): return U.unjson(name, v)
+    if c["kind"] == "psolve":
+        c = PS.unjson_case(c)
+        try:
+            rr = PS.run_case(c)
+        except Exception as e:
+            print("raised", repr(e)); return 1
+        codes = dict(axis=run_coq(PS.PS_AXIS, [PS.axis_value(c, rr)], tag="replay")[0])
+        if rr["tag"] == 0: codes["value"] = run_coq(PS.PS_VALUE, [PS.value_value(c, rr)], tag="replay")[0]
+        if c["n"] > 0 and c["m"] > 0:
+            codes["dense"] = run_coq(DENSE[CARRIER_OF[name]], [dense_value(name, c["n"], 0 if c["vec"] else c["m"], c["A"], c["B"], rr["X"])], tag="replay")[0]
+        print("solution axis", rr["e"], "passes", rr["passes"], "warned", rr["warned"], "modified", rr["modified"], "verdict codes", codes)
+        return 1 if (any(codes.values()) or rr["modified"]) else 0
     if c["kind"] in ("dense", "patterned"):
         c = dict(c); c["A"] = un(c["A"]); c["B"] = un(c["B"])
         if c["kind"] == "patterned":
@@ -906,7 +973,7 @@ def replay(path):
 
 MANIFEST = dict(
     level="proof",
-    text="Coq theorems, generic over an abstract ordered star-semiring (law records as premises): recursive elimination of the unknowns in ANY order yields a solution of x = A x + b (from star-unfold alone) that is below every pre-solution (from star-induction); the in-place Gauss-Jordan loop of Semiring.solve_thunks (modelled statement by statement on lists, vector and matrix right-hand sides) computes the same vector; the partial sums of sum A^k b are below it, with equality at N = dim in bool; the block version over an abstract ordered star-semimodule (non-commutative coefficients) and its instance by N x N matrices with the dense solver on the diagonal blocks; RealSemiring's LU fast path agrees with the generic routine when its oracle returns the unique rational solution; multi_mv equals the dense product of the assembled blocks (also transposed); the model of _order_nonterminals returns a duplicate-free enumeration of the keys for every set-iteration order; the matrix star over a commutative ordered star-semiring: A* = A* A + 1 from the left laws alone, (A^T)* = (A*)^T, the least solution of X = X A + B is (solve (A^T) (B^T))^T = B . A* (C09_right_solve_least, C09_mul_star_least, C09_solve_transposed, C09_star_transpose); C09_multi_solve_refines: multi_solve_model (block LU over the PRESENT blocks with a[x,z] := a[x,z] a[z,z]* computed by the transposed solve, Schur updates, block back-substitution) computes, block by block, the block elimination belim instantiated with matrices, for every key set with shapes, every presence pattern (absent = zero: annihilation, solve of a zero matrix = identity), every duplicate-free elimination order and both transpose flags; hence the assembled result is the LEAST solution of x = A x + b of the assembled dense system and equals solve_model of it (verdict 13 of the multi check is impossible), also with the order computed by the model of _order_nonterminals (empty a: order [], result b); soundness/completeness of the executable oracles is_solution_b, series_le_b, cert_le_b, is_least_solution_b; Viterbi (finding F2, repaired in /repo commit d2ec7af): the former star (star(0)=inf) still yields a solution, a refutation witness for leastness, and leastness under the guard 'no pivot is exactly 0'. Tied to /repo by running model and implementation on the same exact-grid inputs (dense n <= 4, 4 semirings; block systems with every presence pattern of 2 blocks and sampled 3/4 blocks, transpose, recorded elimination order; PatternedTensor.solve on typed sparsity patterns, incl. product/sum-typed shift patterns whose solution support needs several closure steps, also as diagonal blocks of multi_solve) and judging every implementation output with the extracted oracles; arguments are byte-snapshotted.",
-    note="Trusted: Coq kernel + vm_compute, extraction cross-checked in the kernel on a sample and on every non-zero verdict, the Python harness (float <-> rational conversion, math.log/exp for the Log reading, 1e-9 tolerance), semiring law records of the carriers (premises of the generic theorems; proved under C08 and discharged in the _bool/_real/_viterbi instances). Open: PatternedTensor.solve's axis iteration (tier B). The refinement of multi_solve_model to the block elimination is proved (C09_multi_solve_refines*); the run-time comparison with the dense model (verdict 13) is kept as a redundant cross-check. F2 (Viterbi star at 0) was repaired in /repo commit d2ec7af; a regression shows as 'not the least solution'. Known findings: F18 (PatternedTensor.solve AssertionError on disjoint support), F21 (new: Real/Log return huge finite numbers for divergent systems whose pivots are not float-exact).",
+    text="Coq theorems, generic over an abstract ordered star-semiring (law records as premises): recursive elimination of the unknowns in ANY order yields a solution of x = A x + b (from star-unfold alone) that is below every pre-solution (from star-induction); the in-place Gauss-Jordan loop of Semiring.solve_thunks (modelled statement by statement on lists, vector and matrix right-hand sides) computes the same vector; the partial sums of sum A^k b are below it, with equality at N = dim in bool; the block version over an abstract ordered star-semimodule (non-commutative coefficients) and its instance by N x N matrices with the dense solver on the diagonal blocks; RealSemiring's LU fast path agrees with the generic routine when its oracle returns the unique rational solution; multi_mv equals the dense product of the assembled blocks (also transposed); the model of _order_nonterminals returns a duplicate-free enumeration of the keys for every set-iteration order; the matrix star over a commutative ordered star-semiring: A* = A* A + 1 from the left laws alone, (A^T)* = (A*)^T, the least solution of X = X A + B is (solve (A^T) (B^T))^T = B . A* (C09_right_solve_least, C09_mul_star_least, C09_solve_transposed, C09_star_transpose); C09_multi_solve_refines: multi_solve_model (block LU over the PRESENT blocks with a[x,z] := a[x,z] a[z,z]* computed by the transposed solve, Schur updates, block back-substitution) computes, block by block, the block elimination belim instantiated with matrices, for every key set with shapes, every presence pattern (absent = zero: annihilation, solve of a zero matrix = identity), every duplicate-free elimination order and both transpose flags; hence the assembled result is the LEAST solution of x = A x + b of the assembled dense system and equals solve_model of it (verdict 13 of the multi check is impossible), also with the order computed by the model of _order_nonterminals (empty a: order [], result b); soundness/completeness of the executable oracles is_solution_b, series_le_b, cert_le_b, is_least_solution_b; Viterbi (finding F2, repaired in /repo commit d2ec7af): the former star (star(0)=inf) still yields a solution, a refutation witness for leastness, and leastness under the guard 'no pivot is exactly 0'. Tied to /repo by running model and implementation on the same exact-grid inputs (dense n <= 4, 4 semirings; block systems with every presence pattern of 2 blocks and sampled 3/4 blocks, transpose, recorded elimination order; PatternedTensor.solve on typed sparsity patterns, incl. product/sum-typed shift patterns whose solution support needs several closure steps, also as diagonal blocks of multi_solve) and judging every implementation output with the extracted oracles; arguments are byte-snapshotted. TIER B (PatternedTensor.solve, Model/PSolve.v): the while-loop that computes the least-dense solution axis (unify e with a's columns from an empty substitution, clone a's rows under the unifier, antiunify, exit when the antisubst is an injective renaming of physical axes) is modelled statement by statement; C09_psolve_loop_closed: on the normal exit, if nothing was warned about, the support of the computed axis contains the support of b and is closed under the pattern of a (ingredients: antiunify covers both arguments and, under the exit test, nothing more; completeness of unify without warnings; C09_unify_sized: a warning-free unifier preserves the sizes of the physical axes, so no premise on the unifier is left); C09_psolve_loop_early: on the b.clone() exit no column of a meets the support of b; C09_restricted_solve_is_least (any ordered star-semiring): gather along a closed support, dense solve, scatter = the dense solver on the whole system, i.e. the least solution vanishes outside the support and is the least solution of the projected system on it; C09_psolve_denotes_least / C09_psolve_equals_dense_solve (+ _bool/_real/_viterbi) and C09_psolve_early_exit_least compose them; C09_psolve_tensor_least / C09_psolve_tensor_early_least: for patterned tensors a (matrix) and b (vector) with default zero, the model's result is the least solution of the system PTensor.denote gives (C06's denote_unbacked supplies the premises); C09_psolve_loop_terminates: at most amsr(e0)*(amsr(e0)+1) passes for patterns in normal form unless a warning is issued (each pass shrinks the weight of e or splits a shared axis: C09_antiunify_measure, C09_pass_splits; unify, clone and antiunify preserve the normal form: C09_normal_form_preserved), C09_psolve_loop_terminates_partial: the same for arbitrary patterns under a per-case premise on the trace; finding F25 (the exit test before /repo 6df0afb also fired when one axis had been split in two): C09_psolve_old_exit_refuted (vm_compute witness) and C09_psolve_old_exit_guarded; oracles contains_b / closed_b (sound and complete) / disjoint_b and C09_psolve_axis_check_sound (verdict 0 of the check function implies that the implementation's axis is a closed support containing b's). Correspondence: generated typed patterned systems (index types up to size 8 from atoms 2, 3 with products and sums; families: random typed patterns, shared axes between a and b, non-zero defaults, bit-product shift / rotate patterns with closure depth up to 4, the F25 class and its exact regression input, diagonal a / diagonal b, sum-typed blocks incl. disjoint supports, zero-size axes), the implementation instrumented (solve_thunks and Axis.antiunify wrapped) and compared with the model on exit kind, solution axis up to renaming, passes, warnings, gathered operands and scattered result; the dense result is judged by the dense check functions as well.",
+    note="Trusted: Coq kernel + vm_compute, extraction cross-checked in the kernel on a sample and on every non-zero verdict, the Python harness (float <-> rational conversion, math.log/exp for the Log reading, 1e-9 tolerance), semiring law records of the carriers (premises of the generic theorems; proved under C08 and discharged in the _bool/_real/_viterbi instances). Tier B (PatternedTensor.solve): the axis loop is modelled and proved (closure of the computed support without any premise on the unifier, restriction theorem, least solution; F25 = premature exit of that loop, found by the proof attempt, repaired in /repo 6df0afb); open: that typed patterns never warn in later passes (termination is proved 'unless a warning is issued'), statement-level model of the projection. The refinement of multi_solve_model to the block elimination is proved (C09_multi_solve_refines*); the run-time comparison with the dense model (verdict 13) is kept as a redundant cross-check. F2 (Viterbi star at 0) was repaired in /repo commit d2ec7af; a regression shows as 'not the least solution'. Known findings: F18 (PatternedTensor.solve AssertionError on disjoint support), F21 (new: Real/Log return huge finite numbers for divergent systems whose pivots are not float-exact).",
     technique="Coq proof (model + theorems) + model/implementation correspondence with verified-spec oracles",
     design_ref="DESIGN.md section 6, C09; Appendix A.5, A.7; Appendix C (C09)")
